@@ -182,5 +182,7 @@ def reads (init : Nat → Nat) : Abs → List BusOp → List Expect
 def admissible : BusOp → Prop
   | .rd a => inScope a
   | .wr a v => inScope a ∧ v < 256
+instance (op : BusOp) : Decidable (admissible op) := by
+  cases op <;> unfold admissible <;> infer_instance
 
 end Tetro.Spec.BusSpec
